@@ -1542,7 +1542,12 @@ bool WFXMLScanner::scanAttValue(const XMLCh* const attrName
             if (nextCh == quoteCh)
             {
                 if (curReader == fReaderMgr.getCurrentReaderNum())
+                {
+                    // a leading surrogate must not be the last thing in the value
+                    if (gotLeadingSurrogate)
+                        emitError(XMLErrs::Expected2ndSurrogateChar);
                     return true;
+                }
 
                 // Watch for spillover into a previous entity
                 if (curReader > fReaderMgr.getCurrentReaderNum())
